@@ -46,7 +46,7 @@ type protoOneofV struct {
 }
 
 var (
-	pmMsgT    = &fakeType{name: "gosmt.protoMessage", methods: map[string]bool{"Descriptor": true, "WhichOneof": true, "Interface": true, "Get": true, "IsValid": true}}
+	pmMsgT    = &fakeType{name: "gosmt.protoMessage", methods: map[string]bool{"Descriptor": true, "WhichOneof": true, "Interface": true, "Get": true, "IsValid": true, "Has": true}}
 	pmDescT   = &fakeType{name: "gosmt.protoMessageDescriptor", methods: map[string]bool{"Name": true, "FullName": true, "Fields": true, "Oneofs": true, "Parent": true}}
 	// the parent of a top-level message: a file descriptor, which is not a message descriptor
 	pmFileT = &fakeType{name: "gosmt.protoFileDescriptor", methods: map[string]bool{"Path": true}}
@@ -269,6 +269,43 @@ func (ex *Exec) protoMethod(recv iface, name string) *modelClosure {
 			})
 		case "IsValid":
 			return mk(func(ex *Exec, fr *frame, pos token.Pos, args []value) value { return ex.b.Bool(m.ptr != nil) })
+		case "Has":
+			// proto3 presence: a message field is set when its pointer is, a repeated field when it has items, a
+			// oneof member when the oneof holds its wrapper, a scalar when it is not the zero value
+			return mk(func(ex *Exec, fr *frame, pos token.Pos, args []value) value {
+				fd, ok := args[1].(iface)
+				if !ok || fd.t != pmFieldT {
+					panic(ex.unsupported("protoreflect Has with a non-model field descriptor"))
+				}
+				f := fd.v.(protoFieldV)
+				if f.holder != nil {
+					return ex.b.True // obtained from WhichOneof on a populated oneof
+				}
+				if m.ptr == nil {
+					return ex.b.False
+				}
+				if f.st != m.st {
+					panic(ex.unsupported("protoreflect Has of a field of another message"))
+				}
+				switch v := (*m.ptr).(structure)[f.idx].(type) {
+				case *value:
+					return ex.b.Bool(v != nil)
+				case []value:
+					return ex.b.Bool(len(v) > 0)
+				case *smt.Term:
+					if v.Sort == smt.SBool {
+						return v
+					}
+					if v.Sort == smt.SInt {
+						return ex.b.Ne(v, ex.k(0))
+					}
+				case *Str:
+					if !v.opaque {
+						return ex.b.Bool(len(v.b) > 0)
+					}
+				}
+				panic(ex.unsupported("protoreflect Has on this kind of field"))
+			})
 		}
 	case pmDescT:
 		d := recv.v.(protoDescV)
